@@ -3,6 +3,8 @@
 (* AshProtocol on a fake serial transport, application = recorder.            *)
 EXTENDS Gateway, Json, IOUtils, TLCExt, TLC, Integers
 CONSTANTS TMin, TMax
+(* recorded instants are rounded to whole milliseconds: an interval of exactly TMin / TMax may read 1 ms off *)
+InWindow(dt) == dt \in (TMin - 1) .. (TMax + 1)
 Traces == JsonDeserialize(IOEnv.TRACE_FILE)
 VARIABLES g, tw, tid, l
 tvars == <<g, tw, tid, l>>
@@ -36,7 +38,7 @@ TNext ==
        \/ e.a = "lost" /\ Apply(e, GStepLost(g, e.exc = 1))
        \/ e.a = "timer" /\ ResetTimeoutEnabled(g) /\ e.t = g.rt + ResetTimeout /\ Apply(e, GStepTimeout(g))
        \/ e.a = "timer" /\ ~(ResetTimeoutEnabled(g) /\ e.t = g.rt + ResetTimeout)
-             /\ TimerEnabled(g.h) /\ e.t - tw \in TMin .. TMax /\ Apply(e, GStepTick(g))
+             /\ TimerEnabled(g.h) /\ InWindow(e.t - tw) /\ Apply(e, GStepTick(g))
        \/ e.a = "submit" /\ Apply(e, GStepSubmit(g, e.id, e.pl))
        \/ e.a = "end" /\ e.pending = <<>> /\ g.rw = "none" /\ g.h.cur.id = 0 /\ UNCHANGED <<g, tw>>
   /\ l' = l + 1 /\ UNCHANGED tid
